@@ -47,3 +47,18 @@ func (lalr *LALR1) VerifTrans() []VerifTran {
 	}
 	return res
 }
+
+// VerifRelations returns the three DeRemer-Pennello relations as pairs of transition indices:
+// reads, includes, lookback (recomputed by the same functions the lookahead computation uses).
+func (lalr *LALR1) VerifRelations() (reads, includes, lookback [][2]int) {
+	for _, r := range lalr.CalcAllReadRelations() {
+		reads = append(reads, [2]int{r.x, r.y})
+	}
+	for _, r := range lalr.CaclIncludes() {
+		includes = append(includes, [2]int{r.x, r.y})
+	}
+	for _, r := range lalr.CalcLookbacks() {
+		lookback = append(lookback, [2]int{r.x, r.y})
+	}
+	return
+}
